@@ -212,8 +212,35 @@ func judge(c *Case, obs []CallObs, res *lib.Result) {
 		tags["calls:concurrent"] = true
 	}
 	pOwn, hOwn := payloadOwner(c.Calls), handlerOwner(c.Calls)
+	if c.Resume {
+		judgeSession(c, obs, tags, fail)
+		for _, g := range c.Forest {
+			if len(g.IB) > 0 {
+				tags["interrupt:before"] = true
+			}
+			if len(g.IA) > 0 {
+				tags["interrupt:after"] = true
+			}
+			for _, nd := range g.Nodes {
+				if nd.Rerun {
+					tags["interrupt:rerun"] = true
+				}
+				if nd.Pred != 0 {
+					tags["shape:chains"] = true
+				}
+			}
+		}
+	}
 	for i, cl := range c.Calls {
 		o := obs[i]
+		if o.Class == "unused" {
+			continue
+		}
+		// the nodes that execute in this call: the selected ones, or (resume cases) the observed ones
+		sel := func(p []int, nd Node) bool { return nd.Runs }
+		if c.Resume && o.Class != "err" {
+			sel = selRan(o)
+		}
 		opts := resolve(cl)
 		if cl.Stream {
 			tags["call:stream"] = true
@@ -256,7 +283,7 @@ func judge(c *Case, obs []CallObs, res *lib.Result) {
 			}
 		}
 		expFired = append(expFired, PL{Path: []int{}, Vals: setOf(globals)})
-		walk(c.Forest, 0, nil, 0, func(p []int, nd Node) {
+		walkTree(c.Forest, 0, nil, 0, sel, func(p []int, nd Node) {
 			if nd.Kind != "sub" {
 				vals := []int{}
 				for _, op := range opts {
@@ -301,7 +328,24 @@ func judge(c *Case, obs []CallObs, res *lib.Result) {
 			} else {
 				res.Nontrivial = true
 			}
-		case "ok":
+		case "ok", "int":
+			if c.Resume {
+				tags[fmt.Sprintf("step:%s", o.Class)] = true
+				if i > 0 {
+					deep := false
+					for _, pl := range o.Deliv {
+						if len(pl.Path) >= 2 {
+							deep = true
+						}
+					}
+					if deep {
+						tags["resumed-into-subgraph"] = true
+						if !wantErr {
+							res.Nontrivial = true
+						}
+					}
+				}
+			}
 			if o.Extra != "" {
 				fail("harness-anomaly", fmt.Sprintf("call %d: %s", i, o.Extra))
 			}
@@ -332,7 +376,7 @@ func judge(c *Case, obs []CallObs, res *lib.Result) {
 				if d := diffPLs(expFired, o.Fired, true); d != "" {
 					fail("callback-misplaced", fmt.Sprintf("call %d: handlers fired differ from the designated ones: %s", i, d))
 				}
-				if designated && depth >= 2 {
+				if designated && depth >= 2 && !c.Resume {
 					res.Nontrivial = true
 				}
 			}
